@@ -1,7 +1,7 @@
 """R-FMTTABLES (C14): character classes, reserved-word lists and entity maps of the YAML/TOML/XML/Python writers are
 within what the target grammar allows; out-of-domain values are rejected before anything is written."""
 from .. import hir as H
-from ..mir import strip, show, short_path, contains
+from ..mir import strip, show, short_path, contains, string_writes, string_write_kind, const_text
 from ..report import ok, bad, info, site, Floor
 
 RULE = "R-FMTTABLES"
@@ -213,7 +213,7 @@ def run(prog):
     if g is None:
         obs.append(bad(RULE, key, "", "YamlStreamFormat::manifest_buf not found"))
     else:
-        marks = [b for b, t in g.calls() if (t.get("fn") or "") == "alloc::string::String::push_str" and strip(g.desc_op(t["args"][1])) == ("const", '"---\\n"')]
+        marks = [b for b, t, kind, dst, d in string_writes(g) if const_text(d) == "---\n"]
         inner = [b for b, t in g.calls() if (t.get("fn") or "").endswith("ManifestFormat::manifest_buf") or (t.get("fn") or "").endswith("in_description_frame")]
         good = bool(marks) and bool(inner) and all(any(g.block_dominates(m, i) for m in marks) for i in inner)
         obs.append(ok(RULE, key, site(g), "`---` is written before every document of the stream") if good else
@@ -240,7 +240,7 @@ def check_reject(g, var, key):
                 tt = g.term(r)
                 if isinstance(tt, dict) and tt["k"] == "call" and not g.is_cleanup(r):
                     c = tt.get("res") or tt.get("fn") or ""
-                    if c.startswith("alloc::string::String::push") or "escape_string" in c:
+                    if string_write_kind(tt) or "escape_string" in c:
                         writes.append(short_path(c))
             if writes:
                 return bad(RULE, key, site(g), "the Val::%s arm writes output (%s) instead of failing: %s is outside the format's domain" % (var, sorted(set(writes)), var.lower()))
@@ -251,21 +251,31 @@ def check_reject(g, var, key):
 # ---------------------------------------------------------------------------------------------------------------
 # raw user text, indentation pairing and table headers
 
-USER_SOURCES = ("StrValue::into_flat", "::split", "ObjValue::iter", "ObjValue::fields", "::strip_suffix", "IStr")
+USER_SOURCES = ("StrValue::into_flat", "::split", "Split<", "ObjValue::iter", "ObjValue::fields", "::strip_suffix", "IStr")
+
+
+def _prune_scalars(d):
+    """a descriptor without the payloads of the number / boolean variants of Val (their Display form is not user text)"""
+    if not isinstance(d, tuple):
+        return d
+    if d and d[0] == "as" and d[-1] in ("Num", "Bool", "BigInt"):
+        return ("scalar",)
+    return tuple(_prune_scalars(x) for x in d)
 
 
 def _is_user_text(d, value_params):
     if d[0] == "const":
         return False
+    d = _prune_scalars(d)
     return contains(d, lambda x: (x[0] == "param" and x[1] in value_params) or
                     (x[0] == "call" and any(s in str(x[1]) for s in USER_SOURCES)))
 
 
 def _pushes(g):
-    for b, t in g.calls():
-        fn = t.get("res") or t.get("fn") or ""
-        if fn in ("alloc::string::String::push_str", "alloc::string::String::push") and not g.is_cleanup(b):
-            yield b, t, fn, strip(g.desc_op(t["args"][0])), strip(g.desc_op(t["args"][1]))
+    """appends to a String in any spelling (push_str, push, `+=`, write_str, write_char, write!, extend); the third element is
+    "..::push" for a single char and "..::push_str" for text"""
+    for b, t, kind, dst, d in string_writes(g):
+        yield b, t, ("alloc::string::String::push" if kind == "char" else "alloc::string::String::push_str"), dst, d
 
 
 VALUE_TYPES = ("::Val", "ObjValue", "ArrValue", "IStr")
@@ -308,7 +318,7 @@ def run_text(prog):
         order.append(path)
         g = prog.fn(path)
         vparams, guard, block_ok, all_in_block = state[path]
-        block_marks = [b for b, t, fn, dst, d in _pushes(g) if d in (("const", 124), ("const", '"|-"'), ("const", '"|"'))]
+        block_marks = [b for b, t, fn, dst, d in _pushes(g) if const_text(d) in ("|", "|-")]
         for b, t in g.calls():
             c = t.get("res") or t.get("fn") or ""
             cf = prog.fn(c)
@@ -343,7 +353,7 @@ def run_text(prog):
     for path in order:
         g = prog.fn(path)
         vparams, guard, block_ok, all_in_block = state[path]
-        block_marks = [b for b, t, fn, dst, d in _pushes(g) if d in (("const", 124), ("const", '"|-"'), ("const", '"|"'))]
+        block_marks = [b for b, t, fn, dst, d in _pushes(g) if const_text(d) in ("|", "|-")]
         k = 0
         for b, t, fn, dst, d in _pushes(g):
             if fn.endswith("::push") or not _is_user_text(d, vparams):
@@ -430,13 +440,13 @@ def run_indent(prog):
 def run_toml_header(prog):
     """TOML: a table's `[header]` may be left out only if the table is known to be non-empty (otherwise the table vanishes)"""
     obs = []
-    for path, mark in ((M + "toml::manifest_table", ("const", 91)),):
+    for path, mark in ((M + "toml::manifest_table", "["),):
         g = prog.fn(path)
         key = "toml:header:%s" % short_path(path)
         if g is None:
             obs.append(bad(RULE, key, "", "%s not found" % path))
             continue
-        headers = {b for b, t, fn, dst, d in _pushes(g) if d == mark}
+        headers = {b for b, t, fn, dst, d in _pushes(g) if const_text(d) == mark}
         if not headers:
             obs.append(bad(RULE, key, site(g), "no `[` header write found"))
             continue
@@ -525,7 +535,7 @@ def run_escape(prog):
     g = prog.fn(M + "xml::manifest_jsonml")
     key = "xml:attr-value-escaped"
     if g is not None:
-        quotes = [b for b, t, fn, dst, d in _pushes(g) if d == ("const", 34)]
+        quotes = [b for b, t, fn, dst, d in _pushes(g) if '"' in (const_text(d) or "")]          # `"`, `="`, `" `: any constant write carrying the quote
         escs = {b for b, t in g.calls() if (t.get("res") or t.get("fn") or "").endswith("escape_string_xml_buf")}
         if len(quotes) != 2:
             obs.append(bad(RULE, key, site(g), "expected an opening and a closing quote write, found %d" % len(quotes)))
